@@ -65,6 +65,9 @@ impl Tier {
     }
 }
 
+/// The memory model the verdicts are given under (DESIGN §5).
+pub const DEFAULT_MODEL: rt::Model = rt::Model::M2;
+
 /// One exploration to perform: which build, which bounds, how finely to cut the tree.
 #[derive(Clone, Debug)]
 pub struct Plan {
@@ -76,7 +79,21 @@ pub struct Plan {
 /// Deviation bounds per tier and instance size class (DESIGN §10). `size`: 1 = two threads, one
 /// or two calls; 2 = two threads, more calls; 3 = three threads; 4 = four threads / long.
 pub fn plans(tier: Tier, inst: &Inst, have_ship: bool) -> Vec<Plan> {
-    let mk = |build, p, s, f, split| Plan { build, cfg: rt::Config { p, s, f, ..rt::Config::default() }, split };
+    let model = match std::env::var("VERIF_MODEL").as_deref() {
+        Ok("m1") => rt::Model::M1,
+        Ok("sc") => rt::Model::Sc,
+        Ok("m2") => rt::Model::M2,
+        _ => DEFAULT_MODEL,
+    };
+    // Ad-hoc deeper runs: VERIF_BOUNDS="p,s,f" overrides the tier's bounds for every instance.
+    let over: Option<Vec<u32>> = std::env::var("VERIF_BOUNDS").ok().map(|s| s.split(',').filter_map(|x| x.parse().ok()).collect());
+    let mk = |build, p, s, f, split| {
+        let (p, s, f) = match &over {
+            Some(o) if o.len() == 3 => (o[0], o[1], o[2]),
+            _ => (p, s, f),
+        };
+        Plan { build, cfg: rt::Config { p, s, f, model, ..rt::Config::default() }, split }
+    };
     if let Some(p) = inst.p_with_k {
         // Families built on free atomic-call placements bring their own preemption bound (the
         // C08 adversary uses 0: only complete writes interrupt the thread under test).
@@ -190,6 +207,9 @@ pub fn run_prop(instances: &[Inst], o: &PropOpts) -> PropOutcome {
             if !inst.name.contains(only.as_str()) {
                 continue;
             }
+        }
+        if inst.thorough_only && o.tier == Tier::Quick {
+            continue;
         }
         for plan in plans(o.tier, inst, o.ship_bin.is_some()) {
             work.push((inst, plan));
